@@ -314,10 +314,17 @@ impl SimdStringSearch {
             return Some(pos);
         }
 
-        // Search remaining bytes
+        // Search remaining bytes (1..=19 of them): at most one more full vector,
+        // then the last <= 3 bytes
         let remaining = &haystack[16..];
-        if let Some(pos) = unsafe { self.sse42_strchr_max_16(remaining, needle) } {
+        let second = &remaining[..remaining.len().min(16)];
+        if let Some(pos) = unsafe { self.sse42_strchr_max_16(second, needle) } {
             return Some(16 + pos);
+        }
+        if remaining.len() > 16 {
+            if let Some(pos) = unsafe { self.sse42_strchr_max_16(&remaining[16..], needle) } {
+                return Some(32 + pos);
+            }
         }
 
         None
